@@ -1,6 +1,7 @@
 package util
 
 import (
+	"bytes"
 	"context"
 	"encoding/binary"
 	"io"
@@ -40,14 +41,23 @@ func (c *protoStream) RecvMsg(m interface{}) error {
 		return nil
 	}
 	buf := *bufPool.Get().(*[]byte)
+	defer bufPool.Put(&buf)
 	if cap(buf) < int(length) {
-		buf = make([]byte, length)
+		// a frame larger than the pooled buffer: grow with the payload as it arrives
+		// instead of allocating whatever the 4-byte length prefix announces
+		var b bytes.Buffer
+		if _, err := io.CopyN(&b, c.Reader, int64(length)); err != nil {
+			if err == io.EOF && b.Len() > 0 {
+				err = io.ErrUnexpectedEOF
+			}
+			return err
+		}
+		buf = b.Bytes()
 	} else {
 		buf = buf[:length]
-	}
-	defer bufPool.Put(&buf)
-	if _, err := io.ReadFull(c.Reader, buf); err != nil {
-		return err
+		if _, err := io.ReadFull(c.Reader, buf); err != nil {
+			return err
+		}
 	}
 	err := msg.Unmarshal(buf)
 	if err != nil {
